@@ -110,14 +110,17 @@ def get_contour(mask):
         #                             cv2.RETR_EXTERNAL,
         #                             cv2.CHAIN_APPROX_NONE)
         # c2 = conts[0].reshape(-1, 2)
-        conts = find_contours(mi.transpose(),
+        # Pad the mask, such that the contours of events that touch the
+        # image border are closed.
+        mip = np.pad(np.asarray(mi, dtype=bool), 1, mode="constant")
+        conts = find_contours(mip.transpose(),
                               level=.9999,
                               positive_orientation="low",
                               fully_connected="high")
         # get the longest contour
         c0 = sorted(conts, key=lambda x: len(x))[-1]
-        # round all coordinates to pixel values
-        c1 = np.asarray(np.round(c0), int)
+        # round all coordinates to pixel values (and undo the padding)
+        c1 = np.asarray(np.round(c0), int) - 1
         # remove duplicates
         c2 = remove_duplicates(c1)
         if len(c2) == 0:
